@@ -598,6 +598,99 @@ def rule_add_constraint(chk, prog):
         (r.bad if bad else r.ok)(ns + "::IncSolver::addConstraint", fn.where(), bad or "")
 
 
+def rule_heap_order(chk, prog):
+    """The in/out constraint heaps of a block must hand out stale and internal constraints first, so that they are discarded."""
+    from ..microai.interp import Oracle, default_obj
+    import itertools
+    r = chk.rule("HEAP-ORDER", "CompareConstraints::operator() (both solver copies) interpreted on all pairs of constraints over {fresh, stale "
+                 "time stamp} x {between two blocks, internal to one block} x slack {-3, 0, 4} x ids: a constraint that is stale "
+                 "(its left block was re-stamped after it was queued) OR internal to one block (left->block == right->block, e.g. just "
+                 "merged, before the block is re-stamped) counts as slack -infinity, i.e. it comes out of the heap before every live "
+                 "constraint and is thrown away by findMinInConstraint / mergeIn; live constraints are ordered by slack, ties by ids -- an "
+                 "internal constraint with slack >= 0 that stays inside the heap can hide a violated one below it", floor=2)
+    for ns in ("vpsc", "Avoid"):
+        fn = prog.fn(ns + "::CompareConstraints::operator()")
+        flip = (ns == "Avoid")
+
+        def mk(kind, slack, lid, rid):
+            stale, internal = kind
+            bl = default_obj(prog, ns + "::Block", {"timeStamp": 5 if stale else 0, "posn": Fraction(0)})
+            bl.f["ps"] = default_obj(prog, ns + "::PositionStats", {"scale": Fraction(1)})
+            if internal:
+                br = bl
+            else:
+                br = default_obj(prog, ns + "::Block", {"timeStamp": 0, "posn": Fraction(0)})
+                br.f["ps"] = default_obj(prog, ns + "::PositionStats", {"scale": Fraction(1)})
+            L = default_obj(prog, ns + "::Variable", {"id": lid, "block": bl, "scale": Fraction(1), "offset": Fraction(0)})
+            R = default_obj(prog, ns + "::Variable", {"id": rid, "block": br, "scale": Fraction(1), "offset": Fraction(2 + slack)})
+            return default_obj(prog, ns + "::Constraint", {"left": L, "right": R, "gap": Fraction(2), "timeStamp": 1, "needsScaling": False,
+                                                             "unsatisfiable": False, "active": False, "equality": False})
+        kinds = [(False, False), (True, False), (False, True), (True, True)]
+        descr = {(False, False): "live", (True, False): "stale", (False, True): "internal", (True, True): "stale+internal"}
+        cfgs = [(k, sl, ids) for k in kinds for sl in (-3, 0, 4) for ids in ((1, 2), (2, 3))]
+        bad = None
+        n = 0
+        for a, b in itertools.product(cfgs, cfgs):
+            c1, c2 = mk(a[0], a[1], *a[2]), mk(b[0], b[1], *b[2])
+            it = Interp(prog, Oracle([]))
+            try:
+                got = it.call(fn, default_obj(prog, ns + "::CompareConstraints", {}), None, None, arg_values=[c1, c2])
+            except (Unsupported, AssertFail) as e:
+                raise AnalysisBroken("%s::CompareConstraints outside the interpreter subset: %s" % (ns, e))
+            n += 1
+            ka = None if (a[0][0] or a[0][1]) else a[1]          # None = -infinity
+            kb = None if (b[0][0] or b[0][1]) else b[1]
+            if ka == kb:
+                want = a[2] < b[2]
+            else:
+                lt = (ka is None) or (kb is not None and ka < kb)
+                want = (not lt) if flip else lt
+            if bool(got) != want and bad is None:
+                bad = "%s constraint (slack %s, ids %s) against %s constraint (slack %s, ids %s): returns %s, expected %s" % (
+                    descr[a[0]], a[1], a[2], descr[b[0]], b[1], b[2], bool(got), want)
+        r.count(n)
+        (r.bad if bad else r.ok)(ns + "::CompareConstraints::operator()", fn.where(), bad or "%d pairs" % n)
+
+
+def rule_publish_position(chk, prog):
+    """What a caller reads after solve(): the positions the verified state gives, for every variable."""
+    from ..microai.interp import Oracle, default_obj, Vec
+    r = chk.rule("PUBLISH-IS-POSITION", "copyResult() (Solver, IncSolver, both copies) interpreted on three variables in two blocks, one of them "
+                 "flagged fixedDesiredPosition and pushed away from its desired position: finalPosition of EVERY variable is exactly its "
+                 "position() in the solved state ((block.scale * block.posn + offset) / scale) -- the final scans verified that state, and "
+                 "nothing else (not the desired position of a `fixed` variable, whose weight is finite)", floor=2)
+    for q in ("vpsc::Solver::copyResult", "vpsc::IncSolver::copyResult", "Avoid::IncSolver::copyResult"):
+        fns = prog.fns(q)
+        if not fns:
+            if q == "vpsc::IncSolver::copyResult":
+                continue                      # inherited from Solver
+            raise AnalysisBroken("%s not found" % q)
+        fn = fns[0]
+        ns = q.split("::")[0]
+        b1 = default_obj(prog, ns + "::Block", {"posn": Fraction(7), "timeStamp": 0})
+        b1.f["ps"] = default_obj(prog, ns + "::PositionStats", {"scale": Fraction(2)})
+        b2 = default_obj(prog, ns + "::Block", {"posn": Fraction(-4), "timeStamp": 0})
+        b2.f["ps"] = default_obj(prog, ns + "::PositionStats", {"scale": Fraction(1)})
+        vs = []
+        for k, (blk, off, sc, des, fixed) in enumerate(((b1, 0, 2, 3, False), (b1, 6, 1, 100, True), (b2, 1, 1, -4, False))):
+            vs.append(default_obj(prog, ns + "::Variable", {"id": k, "block": blk, "offset": Fraction(off), "scale": Fraction(sc), "desiredPosition": Fraction(des),
+                                                           "fixedDesiredPosition": fixed, "finalPosition": Fraction(-999), "weight": Fraction(1)}))
+        solver = default_obj(prog, q.rsplit("::", 1)[0], {"vs": Vec(list(vs), ns + "::Variable *")})
+        it = Interp(prog, Oracle([]))
+        r.count()
+        try:
+            it.call(fn, solver, None, None, arg_values=[])
+        except (Unsupported, AssertFail) as e:
+            raise AnalysisBroken("%s outside the interpreter subset: %s" % (q, e))
+        bad = None
+        for v in vs:
+            want = (v.f["block"].f["ps"].f["scale"] * v.f["block"].f["posn"] + v.f["offset"]) / v.f["scale"]
+            if Fraction(v.f["finalPosition"]) != want:
+                bad = bad or "variable %d (%s): finalPosition = %s, its position in the solved state is %s" % (
+                    v.f["id"], "fixedDesiredPosition" if v.f["fixedDesiredPosition"] else "free", v.f["finalPosition"], want)
+        (r.bad if bad else r.ok)(q, fn.where(), bad or "")
+
+
 def run(chk):
     prog = chk.load()
     from . import c02 as _c02
@@ -611,6 +704,8 @@ def run(chk):
     chk.guard(rule_who_writes, chk, prog)
     chk.guard(rule_solver_takes_over, chk, prog)
     chk.guard(rule_add_constraint, chk, prog)
+    chk.guard(rule_heap_order, chk, prog)
+    chk.guard(rule_publish_position, chk, prog)
     r = chk.rule("SIBLING", "every function of libavoid's solver copy (libavoid/vpsc.{h,cpp}) is structurally identical to its libvpsc "
                  "counterpart after alpha-renaming, dropping assertions/casts and unifying the heap ADT (tables/siblings.json lists the "
                  "deliberate differences)", floor=60)
